@@ -194,15 +194,17 @@ impl<'a> DocSymEmitter<'a> {
             }
             Token::Segment { id, block, .. } => {
                 if let Some(b) = block {
-                    if let Ok(Some(symbol_id)) = self
+                    let symbol_id = self
                         .codegen
                         .lock()
                         .unwrap()
                         .evaluate_expression_as_string(id, false)
-                    {
-                        self.emit_document_symbols(&b.inner, Some(&Identifier::new(symbol_id)))
-                    } else {
-                        vec![]
+                        .ok()
+                        .flatten()
+                        .and_then(Identifier::try_new);
+                    match symbol_id {
+                        Some(symbol_id) => self.emit_document_symbols(&b.inner, Some(&symbol_id)),
+                        None => vec![],
                     }
                 } else {
                     vec![]
